@@ -600,3 +600,78 @@ def t_market_init():
     st.obl.append({"name": "Market.__init__/cover:paths", "pc": [], "goal": z3.BoolVal(n >= 1), "kind": "cover"})
     src = get_src_m()
     return {"obligations": st.obl, "info": [{"function": q, "source_sha": src.source_hash(q), "where": src.where(q), "paths": n, "assumptions": sorted(ex.used_assumptions)} for q in ("Market.__init__", "Market.setup")]}
+
+
+# ----------------------------------------------------------------------------- _extract_sequential_data_by_time: no element of a requested range may lie in the future (C06)
+def seq_spec(ety, tag, with_times):
+    qual = "Market._extract_sequential_data_by_time"
+
+    def times_view(st, a):
+        ts = a["times"]
+        return ts.term, st.length(ts.term, ("int",)), st.elems(ts.term, ("int",))
+
+    def future(st, a):
+        if not with_times:
+            return z3.BoolVal(False)
+        L, n, el = times_view(st, a); i = z3.Int("i_sq")
+        return z3.Exists([i], z3.And(0 <= i, i < n, z3.Select(el, i) > st.read(a["self"], "time").term))
+
+    def some_none(st, a):
+        if ety[0] != "opt":
+            return z3.BoolVal(False)
+        p = a["parameters"]; i = z3.Int("i_sqn")
+        nn = st.elems(p.term, ety, "none")
+        if with_times:
+            L, n, el = times_view(st, a)
+            return z3.Exists([i], z3.And(0 <= i, i < n, z3.Select(nn, z3.Select(el, i))))
+        return z3.Exists([i], z3.And(0 <= i, i <= st.read(a["self"], "time").term, z3.Select(nn, i)))
+
+    def pre(st, a):
+        m, p = a["self"], a["parameters"]
+        cs = [("the series covers every time up to the clock", z3.And(st.length(p.term, ety) > st.read(m, "time").term, st.read(m, "time").term >= 0))]
+        if with_times:
+            L, n, el = times_view(st, a); i = z3.Int("i_sqp")
+            cs.append(("requested times are >= 0", z3.And(n >= 0, z3.ForAll([i], z3.Implies(z3.And(0 <= i, i < n), z3.Select(el, i) >= 0)))))
+        return cs
+
+    def post(st0, st1, a, res):
+        m, p = a["self"], a["parameters"]; i = z3.Int("i_sqo")
+        if with_times:
+            L, n, el = times_view(st0, a)
+            src = lambda j: z3.Select(el, j)
+        else:
+            n = st0.read(m, "time").term + 1
+            src = lambda j: j
+        pe = st0.elems(p.term, ety); re_ = st1.elems(res.term, ety)
+        same = z3.Select(re_, i) == z3.Select(pe, src(i))
+        if ety[0] == "opt":
+            pn = st0.elems(p.term, ety, "none"); rn = st1.elems(res.term, ety, "none")
+            same = z3.And(z3.Select(rn, i) == z3.Select(pn, src(i)), z3.Implies(z3.Not(z3.Select(pn, src(i))), same))
+        return [("C06 one value per requested time, each the value recorded for that time (all times up to the clock when no range is given)",
+                 z3.And(st1.length(res.term, ety) == n, z3.ForAll([i], z3.Implies(z3.And(0 <= i, i < n), same))))]
+    pt = {"parameters": ("list", ety)}
+    if with_times:
+        pt["times"] = ("list", ("int",))
+    spec = FSpec(qual, pre=pre, post=post, props=("C06",), param_types=pt, result=("list", ety), fresh_result=True,
+                 raises={"AssertionError": lambda st, a: z3.Or(future(st, a), z3.And(some_none(st, a), z3.Not(a["allow_none"].term)))},
+                 modifies=lambda st, a: [])
+    return spec
+
+
+def _seq_task(ety, tag, with_times):
+    tid = f"Market._extract_sequential_data_by_time[{tag},{'times' if with_times else 'all'}]"
+
+    def build():
+        spec = seq_spec(ety, tag, with_times)
+
+        def setup(ex, st, a):
+            if not with_times:
+                st.env["times"] = NONE
+        obl, info = spec.verify(setup=setup if not with_times else None)
+        return {"obligations": obl, "info": [info]}
+    build.__doc__ = "range accessor: a requested time in the future is refused; otherwise exactly the recorded values are returned"
+    task(tid, props=["C06"], functions=["Market._extract_sequential_data_by_time"], replay="market_ops")(build)
+    return tid
+
+
+SEQ_TASKS = [_seq_task(("opt", ("real",)), "prices", True), _seq_task(("opt", ("real",)), "prices", False), _seq_task(("int",), "counters", True)]
